@@ -57,6 +57,9 @@ class World:
             if last and line == "":
                 continue
             tmpl.append({"segs": segs, "end": end})
+        cg = project.get("cfg_glob")
+        if cg:
+            tmpl.append({"segs": [cg["prefix"], {"slot": "{version}", "pat": -2}], "end": end})
         self.files[self.syntax] = tmpl
         self.configured.append(self.syntax)
         self.dir = None
